@@ -72,6 +72,32 @@ KNOWN_LIBRARY_DEVIATIONS = {
         "from int(round(nan)).",
 }
 
+#: Behaviour that looks unintended but is part of the published *procedure*; the
+#: oracle reproduces it (so it raises no alarm) -- listed for the record.
+SUSPECTED_DEFECTS_NOT_ENFORCED = {
+    "goto/track-slice":
+        "With fewer than 3 incorrect annotations (i.e. every inner annotation "
+        "is correct) the tested track is error[first_incorrect+1 : "
+        "last_incorrect-1], which drops the last correct inner annotation: a "
+        "perfect estimate of a 3- or 4-beat reference scores 0 (track of "
+        "length 0 / 1 has NaN statistics), 5 beats are needed for a 1.  With 3 "
+        "or more incorrect annotations the track error[start : end+1] INCLUDES "
+        "the two incorrect annotations that delimit it (|error| > threshold, "
+        "usually 1), which inflates mean and sample std: reference 0..13 s, "
+        "estimate with beat 1 removed, has 11 consecutive exact beats but "
+        "scores 0 (std 0.376 > 0.2).  The docstring speaks of 'the beat errors "
+        "in the continuously correct track'.",
+    "goto/end-annotations":
+        "The comment says 'first and last will be 0 so always correct' but the "
+        "errors are initialised to 1, so the first and last annotation are "
+        "always incorrect for goto_threshold < 1.",
+    "p_score/window-larger-than-train":
+        "For p_score_threshold > 1 the window can exceed the train length; the "
+        "library's slice start then becomes negative and wraps around.  The "
+        "oracle counts all pairs with |lag| <= window.  Not exercised "
+        "(documented thresholds are fractions of the interval).",
+}
+
 _HALF = Fraction(1, 2)
 
 
